@@ -138,12 +138,40 @@ fn num(s: &str) -> usize {
 
 /// run a read query; returns the outcome and the engine's emitted-row counter (verif hook)
 fn run_query(db: &Db, cypher: &str, opts: ExecuteOptions) -> (Outcome, usize) {
+    run_query_p(db, cypher, opts, &[])
+}
+
+/// `name=<scalar token>` pairs (`i1`, `b0`, `sabc`, `null`) -> query parameters
+fn parse_params(toks: &[&str]) -> Vec<(String, Value)> {
+    toks.iter()
+        .filter_map(|t| {
+            let (k, v) = t.split_once('=')?;
+            let val = if v == "null" {
+                Value::Null
+            } else if v == "b0" || v == "b1" {
+                Value::Bool(v == "b1")
+            } else if let Some(i) = v.strip_prefix('i') {
+                Value::Int(i.parse().ok()?)
+            } else if let Some(st) = v.strip_prefix('s') {
+                Value::String(st.to_string())
+            } else {
+                return None;
+            };
+            Some((k.to_string(), val))
+        })
+        .collect()
+}
+
+fn run_query_p(db: &Db, cypher: &str, opts: ExecuteOptions, ps: &[(String, Value)]) -> (Outcome, usize) {
     let q = match prepare(cypher) {
         Ok(q) => q,
         Err(e) => return (Outcome::Err(format!("prepare:{}", err_class(&e))), 0),
     };
     let snap = db.snapshot();
-    let params = Params::with_execute_options(opts);
+    let mut params = Params::with_execute_options(opts);
+    for (k, v) in ps {
+        params.insert(k.clone(), v.clone());
+    }
     let r = q.execute_streaming(&snap, &params).collect::<Result<Vec<Row>, Error>>();
     let emitted = params.verif_emitted_rows();
     match r {
@@ -181,7 +209,8 @@ fn bag(rows: &[Row]) -> std::collections::BTreeMap<String, i64> {
     m
 }
 
-fn where_check(db: &Db, classes: &str, prefix: &str, pred: &str, suffix: &str) -> String {
+fn where_check(db: &Db, classes: &str, prefix: &str, pred: &str, suffix: &str, ps: &[(String, Value)]) -> String {
+    let run_query = |db: &Db, cy: &str, o: ExecuteOptions| run_query_p(db, cy, o, ps);
     let base = run_query(db, &format!("{} {}", prefix, suffix), unlimited()).0;
     // the class string was computed for the graph of this case: a line replayed without its
     // setup lines (shrinking) is not a test of anything
@@ -221,7 +250,8 @@ fn where_check(db: &Db, classes: &str, prefix: &str, pred: &str, suffix: &str) -
 }
 
 /// class of the predicate's value on every row of the unfiltered query: T F N O(ther) E(rror)
-fn classes_of(db: &Db, prefix: &str, pred: &str) -> Option<String> {
+fn classes_of(db: &Db, prefix: &str, pred: &str, ps: &[(String, Value)]) -> Option<String> {
+    let run_query = |db: &Db, cy: &str, o: ExecuteOptions| run_query_p(db, cy, o, ps);
     // one row at a time would be exact per row; the bag of classes is all the model needs
     let (o, _) = run_query(db, &format!("{} RETURN ({}) AS v__", prefix, pred), unlimited());
     match o {
@@ -263,28 +293,47 @@ fn scalar_token(l: &Literal) -> Option<String> {
     })
 }
 
-fn expr_tokens(e: &Expression, out: &mut Vec<String>) -> Option<()> {
+/// translation context: the columns of the rows the expression is evaluated on (an EXISTS subquery
+/// is compiled against them) and whether we are inside an argument that `ensure_runtime_…`
+/// evaluates for its type check (the model does not follow subqueries run there)
+#[derive(Clone)]
+struct Cx {
+    cols: Vec<String>,
+    checked_arg: bool,
+}
+
+fn expr_tokens(e: &Expression, cx: &Cx, out: &mut Vec<String>) -> Option<()> {
     match e {
         Expression::Literal(l) => out.push(scalar_token(l)?),
         Expression::Variable(v) if ident_ok(v) => out.push(format!("v{}", v)),
         Expression::List(items) => {
-            out.push("list".into());
-            out.push(items.len().to_string());
-            for it in items {
+            let lit = |it: &Expression| -> Option<String> {
                 match it {
-                    Expression::Literal(l) => out.push(scalar_token(l)?),
+                    Expression::Literal(l) => scalar_token(l),
                     Expression::Unary(u) if matches!(u.operator, UnaryOperator::Negate) => match &u.operand {
-                        Expression::Literal(Literal::Integer(i)) => out.push(format!("i{}", -i)),
-                        _ => return None,
+                        Expression::Literal(Literal::Integer(i)) => Some(format!("i{}", -i)),
+                        _ => None,
                     },
-                    _ => return None,
+                    _ => None,
                 }
+            };
+            if items.iter().all(|it| lit(it).is_some()) {
+                out.push("list".into());
+                out.push(items.len().to_string());
+                for it in items {
+                    out.push(lit(it)?);
+                }
+            } else if items.len() == 1 {
+                out.push("single".into());
+                expr_tokens(&items[0], cx, out)?;
+            } else {
+                return None;
             }
         }
         Expression::Unary(u) => match u.operator {
             UnaryOperator::Not => {
                 out.push("not".into());
-                expr_tokens(&u.operand, out)?;
+                expr_tokens(&u.operand, cx, out)?;
             }
             UnaryOperator::Negate => match &u.operand {
                 Expression::Literal(Literal::Integer(i)) => out.push(format!("i{}", -i)),
@@ -302,17 +351,17 @@ fn expr_tokens(e: &Expression, out: &mut Vec<String>) -> Option<()> {
                 BinaryOperator::Modulo => "mod",
                 BinaryOperator::IsNull => {
                     out.push("isnull".into());
-                    return expr_tokens(&b.left, out);
+                    return expr_tokens(&b.left, cx, out);
                 }
                 BinaryOperator::IsNotNull => {
                     out.push("notnull".into());
-                    return expr_tokens(&b.left, out);
+                    return expr_tokens(&b.left, cx, out);
                 }
                 _ => return None,
             };
             out.push(op.into());
-            expr_tokens(&b.left, out)?;
-            expr_tokens(&b.right, out)?;
+            expr_tokens(&b.left, cx, out)?;
+            expr_tokens(&b.right, cx, out)?;
         }
         Expression::FunctionCall(c) => {
             let name = c.name.to_ascii_lowercase();
@@ -322,16 +371,38 @@ fn expr_tokens(e: &Expression, out: &mut Vec<String>) -> Option<()> {
                 ("range", 2) => out.push("range".into()),
                 _ => return None,
             }
+            let inner = Cx { cols: cx.cols.clone(), checked_arg: true };
             for a in &c.args {
-                expr_tokens(a, out)?;
+                expr_tokens(a, &inner, out)?;
             }
         }
+        Expression::Case(c) => {
+            // CASE WHEN c THEN t [ELSE e] END
+            if c.expression.is_some() || c.when_clauses.len() != 1 {
+                return None;
+            }
+            out.push("case".into());
+            expr_tokens(&c.when_clauses[0].0, cx, out)?;
+            expr_tokens(&c.when_clauses[0].1, cx, out)?;
+            match &c.else_expression {
+                Some(e) => expr_tokens(e, cx, out)?,
+                None => out.push("null".into()),
+            }
+        }
+        Expression::Exists(ex) => match ex.as_ref() {
+            ExistsExpression::Subquery(q) if !cx.checked_arg => {
+                let sub = nervusdb_query::query_api::verif_compile_exists_subquery(q, &cx.cols).ok()?;
+                out.push("existsx".into());
+                plan_tokens(&sub, out)?;
+            }
+            _ => return None,
+        },
         _ => return None,
     }
     Some(())
 }
 
-fn agg_tokens(f: &AggregateFunction, alias: &str, out: &mut Vec<String>) -> Option<()> {
+fn agg_tokens(f: &AggregateFunction, alias: &str, cx: &Cx, out: &mut Vec<String>) -> Option<()> {
     let (name, e) = match f {
         AggregateFunction::Count(None) => {
             out.push("count*".into());
@@ -346,7 +417,7 @@ fn agg_tokens(f: &AggregateFunction, alias: &str, out: &mut Vec<String>) -> Opti
         _ => return None,
     };
     out.push(name.into());
-    expr_tokens(e, out)?;
+    expr_tokens(e, cx, out)?;
     out.push(alias.into());
     Some(())
 }
@@ -397,6 +468,11 @@ fn collect_aliases(p: &Plan, out: &mut Vec<String>) {
 
 /// structural translation of the engine's plan; `None` = outside the model's fragment
 fn plan_tokens(p: &Plan, out: &mut Vec<String>) -> Option<()> {
+    let cx_of = |input: &Plan| {
+        let mut cols = Vec::new();
+        collect_aliases(input, &mut cols);
+        Cx { cols, checked_arg: false }
+    };
     match p {
         Plan::ReturnOne => out.push("one".into()),
         // the leaf of an EXISTS subquery: the outer row (column values are placeholders here)
@@ -404,7 +480,7 @@ fn plan_tokens(p: &Plan, out: &mut Vec<String>) -> Option<()> {
         Plan::Unwind { input, expression, alias } if ident_ok(alias) => {
             out.push("unwind".into());
             out.push(alias.clone());
-            expr_tokens(expression, out)?;
+            expr_tokens(expression, &cx_of(input), out)?;
             plan_tokens(input, out)?;
         }
         Plan::Filter { input, predicate } => match predicate {
@@ -421,7 +497,7 @@ fn plan_tokens(p: &Plan, out: &mut Vec<String>) -> Option<()> {
             },
             _ => {
                 out.push("filter".into());
-                expr_tokens(predicate, out)?;
+                expr_tokens(predicate, &cx_of(input), out)?;
                 plan_tokens(input, out)?;
             }
         },
@@ -433,7 +509,7 @@ fn plan_tokens(p: &Plan, out: &mut Vec<String>) -> Option<()> {
                     return None;
                 }
                 out.push(alias.clone());
-                expr_tokens(e, out)?;
+                expr_tokens(e, &cx_of(input), out)?;
             }
             plan_tokens(input, out)?;
         }
@@ -443,19 +519,19 @@ fn plan_tokens(p: &Plan, out: &mut Vec<String>) -> Option<()> {
         }
         Plan::Skip { input, skip } => {
             out.push("skip".into());
-            expr_tokens(skip, out)?;
+            expr_tokens(skip, &cx_of(input), out)?;
             plan_tokens(input, out)?;
         }
         Plan::Limit { input, limit } => {
             out.push("limit".into());
-            expr_tokens(limit, out)?;
+            expr_tokens(limit, &cx_of(input), out)?;
             plan_tokens(input, out)?;
         }
         Plan::OrderBy { input, items } => {
             out.push("order".into());
             out.push(items.len().to_string());
             for (e, d) in items {
-                expr_tokens(e, out)?;
+                expr_tokens(e, &cx_of(input), out)?;
                 out.push(if matches!(d, Direction::Ascending) { "asc" } else { "desc" }.into());
             }
             plan_tokens(input, out)?;
@@ -471,7 +547,7 @@ fn plan_tokens(p: &Plan, out: &mut Vec<String>) -> Option<()> {
             }
             out.push(aggregates.len().to_string());
             for (f, alias) in aggregates {
-                agg_tokens(f, alias, out)?;
+                agg_tokens(f, alias, &cx_of(input), out)?;
             }
             plan_tokens(input, out)?;
         }
@@ -528,7 +604,12 @@ impl State for S {
             },
             "q" => {
                 let (o, emitted) = run_query(&self.db, &last, unlimited());
-                format!("{} | rows={}", o.show(), emitted)
+                // the row counter is compared only where no subquery runs inside an expression
+                if ws.contains(&"existsx") {
+                    format!("{} | rows=-", o.show())
+                } else {
+                    format!("{} | rows={}", o.show(), emitted)
+                }
             }
             "lim" if ws.len() > 4 => {
                 let (unl, emitted) = run_query(&self.db, &last, unlimited());
@@ -539,7 +620,8 @@ impl State for S {
                     soft_timeout_ms: 0,
                 };
                 let (lim, _) = run_query(&self.db, &last, o);
-                format!("{} | lim={} unl={} rows={}", limited_rel(&unl, &lim), lim.show_l(), unl.show_l(), emitted)
+                let rows = if ws.contains(&"existsx") { "-".to_string() } else { emitted.to_string() };
+                format!("{} | lim={} unl={} rows={}", limited_rel(&unl, &lim), lim.show_l(), unl.show_l(), rows)
             }
             "limx" if ws.len() > 4 => {
                 let (unl, _) = run_query(&self.db, &last, unlimited());
@@ -584,7 +666,8 @@ impl State for S {
                 if s.is_empty() { "ABORT".into() } else { s }
             }
             "w" if parts.len() >= 4 => {
-                where_check(&self.db, ws[1], &parts[1].join(" "), &parts[2].join(" "), &parts[3].join(" "))
+                let ps = if parts.len() >= 5 { parse_params(parts[4]) } else { vec![] };
+                where_check(&self.db, ws[1], &parts[1].join(" "), &parts[2].join(" "), &parts[3].join(" "), &ps)
             }
             // debugging aids (never generated)
             "show" => match run_query(&self.db, &last, unlimited()).0 {
@@ -666,7 +749,7 @@ impl<'a> QGen<'a> {
             let a = self.rng.range(0, 3);
             return format!("range({}, {})", a, a + self.rng.range(-1, self.size));
         }
-        let n = self.rng.range(0, self.size.min(7));
+        let n = if self.rng.chance(1, 3) { self.rng.range(0, 2) } else { self.rng.range(0, self.size.min(7)) };
         let items: Vec<String> = (0..n)
             .map(|_| if self.rng.chance(1, 6) { "null".to_string() } else { self.rng.range(0, 4).to_string() })
             .collect();
@@ -674,7 +757,7 @@ impl<'a> QGen<'a> {
     }
     fn any_list(&mut self) -> String {
         const ITEMS: &[&str] = &["'true'", "'false'", "'x'", "'7'", "1", "2", "true", "false", "null", "'TRUE'"];
-        let n = self.rng.range(1, 5);
+        let n = if self.rng.chance(1, 3) { self.rng.range(1, 2) } else { self.rng.range(1, 5) };
         let items: Vec<&str> = (0..n).map(|_| *self.rng.pick(ITEMS)).collect();
         format!("[{}]", items.join(", "))
     }
@@ -768,6 +851,18 @@ impl<'a> QGen<'a> {
             && let Some((v, _)) = self.pick_var(Some(Ty::Int))
         {
             s += &format!(" ORDER BY {}{}", v, if self.rng.chance(1, 3) { " DESC" } else { "" });
+        } else if self.rng.chance(1, 4)
+            && let Some((v, t)) = self.pick_var(None)
+        {
+            // a sort key that is an expression (not a projected column) and can raise
+            let key = match (t, self.rng.below(3)) {
+                (Ty::Int, 0) => format!("toBoolean({})", v),
+                (Ty::Int, _) => format!("{} % 2", v),
+                (Ty::Any, 0) => format!("toBoolean({})", v),
+                (Ty::Any, _) => format!("toInteger({})", v),
+                (Ty::Bool, _) => format!("toInteger({})", v),
+            };
+            s += &format!(" ORDER BY {}", key);
         }
         s += &self.window();
         s
@@ -922,6 +1017,94 @@ const C22_TEMPLATES: &[&str] = &[
     "UNWIND [1, 2, 3] AS v RETURN DISTINCT toInteger(v = 2) AS i",
 ];
 
+
+/// a list literal of `n` elements that are fine for the failing function, with the failing element at
+/// position `pos` (0 = first, 1 = middle, 2 = last); `n = 0` is the empty list
+fn list_with_bad(n: usize, pos: usize, ok: &[&str], bad: &str) -> String {
+    if n == 0 {
+        return "[]".into();
+    }
+    let at = match pos {
+        0 => 0,
+        1 => n / 2,
+        _ => n - 1,
+    };
+    let items: Vec<String> = (0..n).map(|i| if i == at { bad.to_string() } else { ok[i % ok.len()].to_string() }).collect();
+    format!("[{}]", items.join(", "))
+}
+
+/// C22 sweep: an expression that raises on exactly one row, in every position where an operator
+/// evaluates expressions (ORDER BY key that is not a projected column, projection, WHERE, UNWIND
+/// list, aggregate argument), over inputs of 0 / 1 / 2 / 3 / 6 rows, failing row first / middle / last
+fn c22_eval_sweep() -> Vec<String> {
+    let mut qs = Vec::new();
+    // (failing function, values it accepts, value it rejects)
+    let fns: &[(&str, &[&str], &str)] =
+        &[("toInteger", &["1", "'7'", "2"], "true"), ("toBoolean", &["'true'", "'false'", "true"], "1")];
+    for (f, ok, bad) in fns {
+        for n in [0usize, 1, 2, 3, 6] {
+            for pos in 0..3 {
+                if n <= 1 && pos > 0 || n == 2 && pos == 1 {
+                    continue;
+                }
+                let l = list_with_bad(n, pos, ok, bad);
+                let src = format!("UNWIND {} AS x", l);
+                qs.push(format!("{} RETURN x AS x ORDER BY {}(x)", src, f));
+                qs.push(format!("{} RETURN x AS x ORDER BY {}(x) DESC LIMIT 1", src, f));
+                qs.push(format!("{} WITH x ORDER BY {}(x) RETURN x AS x", src, f));
+                qs.push(format!("{} WITH x ORDER BY {}(x) RETURN count(x) AS c", src, f));
+                qs.push(format!("{} WITH x ORDER BY {}(x) SKIP 1 RETURN x AS x", src, f));
+                qs.push(format!("{} RETURN DISTINCT x AS x ORDER BY {}(x)", src, f));
+                qs.push(format!("{} CALL {{ WITH x RETURN x AS y ORDER BY {}(x) }} RETURN y AS y", src, f));
+                qs.push(format!("{} RETURN {}(x) AS v", src, f));
+                qs.push(format!("{} RETURN DISTINCT {}(x) AS v", src, f));
+                qs.push(format!("{} WITH x WHERE {}(x) IS NOT NULL RETURN x AS x", src, f));
+                qs.push(format!("{} RETURN count({}(x)) AS c", src, f));
+                qs.push(format!("{} RETURN collect({}(x)) AS c", src, f));
+                qs.push(format!("{} UNWIND [{}(x)] AS y RETURN y AS y", src, f));
+                qs.push(format!("{} RETURN x AS x SKIP {}", src, n.saturating_sub(1)));
+            }
+        }
+        // a selective filter / a unique value leaves exactly the failing row for the sort
+        qs.push(format!("UNWIND [{}, {}, {}] AS x WITH x WHERE x = {} RETURN x AS x ORDER BY {}(x)", ok[0], bad, ok[1], bad, f));
+        qs.push(format!("UNWIND [{}, {}] AS x WITH x WHERE x = {} WITH x ORDER BY {}(x) RETURN count(x) AS c", ok[0], bad, bad, f));
+        qs.push(format!("UNWIND [{}, {}] AS x WITH x ORDER BY x LIMIT 1 RETURN x AS x ORDER BY {}(x)", bad, bad, f));
+    }
+    qs
+}
+
+/// `EXISTS { subquery }` in every expression position, the outer row on which the subquery fails
+/// FIRST / MIDDLE / LAST; `sub` is the body of the subquery over the outer variable `n`
+fn exists_positions(list: &str, sub: &str) -> Vec<String> {
+    let ex = format!("EXISTS {{ {} }}", sub);
+    vec![
+        format!("UNWIND {} AS n UNWIND CASE WHEN {} THEN [n] ELSE [] END AS y RETURN y AS y", list, ex),
+        format!("UNWIND {} AS n UNWIND CASE WHEN {} THEN [] ELSE [n] END AS y RETURN y AS y", list, ex),
+        format!("UNWIND {} AS n RETURN n AS n, {} AS e", list, ex),
+        format!("UNWIND {} AS n RETURN CASE WHEN {} THEN 1 ELSE 0 END AS c", list, ex),
+        format!("UNWIND {} AS n RETURN DISTINCT CASE WHEN {} THEN 1 ELSE 0 END AS c", list, ex),
+        format!("UNWIND {} AS n RETURN n AS n ORDER BY CASE WHEN {} THEN 0 ELSE 1 END", list, ex),
+        format!("UNWIND {} AS n WITH n ORDER BY CASE WHEN {} THEN 0 ELSE 1 END LIMIT 1 RETURN n AS n", list, ex),
+        format!("UNWIND {} AS n RETURN count(CASE WHEN {} THEN 1 END) AS c", list, ex),
+        format!("UNWIND {} AS n RETURN collect(CASE WHEN {} THEN n END) AS c", list, ex),
+        format!("UNWIND {} AS n WITH n WHERE {} RETURN n AS n", list, ex),
+        format!("UNWIND {} AS n WITH n WHERE n > 0 AND {} RETURN n AS n", list, ex),
+        format!("UNWIND {} AS n WITH n WHERE NOT {} RETURN n AS n", list, ex),
+        format!("UNWIND {} AS n WITH n, {} AS e WHERE e RETURN n AS n", list, ex),
+        format!("UNWIND {} AS n CALL {{ WITH n UNWIND CASE WHEN {} THEN [n] ELSE [] END AS y RETURN y AS y }} RETURN y AS y", list, ex),
+    ]
+}
+
+fn c22_exists_sweep() -> Vec<String> {
+    let mut qs = Vec::new();
+    // toBoolean(n) fails for the integer row, is fine for the strings
+    for l in ["[1]", "[1, 'true']", "['true', 1]", "[1, 'true', 'false']", "['true', 1, 'false']", "['true', 'false', 1]", "['true', 'false']"] {
+        qs.extend(exists_positions(l, "WITH n RETURN toBoolean(n) AS b"));
+        qs.extend(exists_positions(l, "WITH n UNWIND [toBoolean(n)] AS b RETURN b AS b"));
+    }
+    qs
+}
+
 fn emit_q(out: &mut dyn Write, op: &str, cy: &str) -> bool {
     match model_plan(cy) {
         Some(toks) => {
@@ -936,6 +1119,14 @@ fn generate_c22(rng: &mut Rng, n: usize, _tier: &str, out: &mut dyn Write) {
     writeln!(out, "#case templates").unwrap();
     for cy in C22_TEMPLATES {
         emit_q(out, "q", cy);
+    }
+    writeln!(out, "#case sweep-eval").unwrap();
+    for cy in c22_eval_sweep() {
+        emit_q(out, "q", &cy);
+    }
+    writeln!(out, "#case sweep-exists").unwrap();
+    for cy in c22_exists_sweep() {
+        emit_q(out, "q", &cy);
     }
     let mut made = 0;
     let mut tries = 0;
@@ -982,6 +1173,21 @@ const C33_TEMPLATES: &[(&str, &str, &str, &str)] = &[
     ("UNWIND range(1, 2000) AS a RETURN a % 7 AS k, count(*) AS c", "-", "5", "-"),
 ];
 
+
+/// C33 sweep: a limit that trips INSIDE an EXISTS subquery sitting in every expression position, on
+/// the first / middle / last outer row (collection limit: exact in the model)
+fn c33_exists_sweep() -> Vec<(String, String)> {
+    let mut qs = Vec::new();
+    for l in ["[50]", "[50, 3]", "[3, 50]", "[50, 3, 5]", "[3, 50, 5]", "[3, 5, 50]", "[3, 5, 7]"] {
+        for q in exists_positions(l, "UNWIND range(1, n) AS k RETURN k AS k") {
+            for coll in ["10", "4", "60"] {
+                qs.push((coll.to_string(), q.clone()));
+            }
+        }
+    }
+    qs
+}
+
 fn pick_limit(rng: &mut Rng, around: usize) -> String {
     match rng.below(8) {
         0 | 1 => "-".into(),
@@ -1025,6 +1231,24 @@ fn generate_c33(rng: &mut Rng, n: usize, tier: &str, out: &mut dyn Write) {
     writeln!(out, "#case templates").unwrap();
     for (cy, r, c, a) in C33_TEMPLATES {
         emit_q(out, &format!("lim {} {} {}", r, c, a), cy);
+    }
+    writeln!(out, "#case sweep-exists").unwrap();
+    let sweep = c33_exists_sweep();
+    for (coll, cy) in &sweep {
+        emit_q(out, &format!("lim - {} -", coll), cy);
+    }
+    // the same queries under EVERY row budget that can matter (engine only: the budget may run out
+    // inside the subquery of any row, the last one included)
+    writeln!(out, "#case sweep-exists-rows").unwrap();
+    let budgets: Vec<usize> = if tier == "thorough" { (1..=140).collect() } else { (1..=70).collect() };
+    for l in ["[3, 5, 9]", "[9, 3, 5]", "[3, 9, 5]"] {
+        let qsx = exists_positions(l, "UNWIND range(1, n) AS k RETURN k AS k");
+        let picks: Vec<&String> = if tier == "thorough" { qsx.iter().collect() } else { qsx.iter().step_by(3).collect() };
+        for q in picks {
+            for b in &budgets {
+                writeln!(out, "limx {} - - ; {}", b, q).unwrap();
+            }
+        }
     }
     // default options on small queries (the default-profile relaxations are constants of the model)
     emit_q(out, "lim 500000 200000 200000", "UNWIND range(1, 100) AS x RETURN DISTINCT x % 3 AS m");
@@ -1113,6 +1337,40 @@ fn generate_c33(rng: &mut Rng, n: usize, tier: &str, out: &mut dyn Write) {
 
 const PROP_VALUES: &[&str] = &["1", "2", "5", "true", "false", "'a'", "'ab'", "'str'", "[1, 2]", "2.5"];
 
+/// constants as they appear in the graphs (PROP_VALUES that are scalars), as literal / parameter
+const EQ_CONSTS: &[(&str, &str)] = &[("1", "i1"), ("2", "i2"), ("5", "i5"), ("true", "b1"), ("false", "b0"), ("'a'", "sa"), ("'ab'", "sab"), ("'str'", "sstr")];
+
+/// a conjunction built around equalities `alias.prop = const`: the planner pushes those down; the
+/// same property may be equated several times (equal or different constants, either operand order,
+/// literal or parameter) and mixed with other conjuncts.  Returns the predicate and its parameters.
+fn eq_conjunction(rng: &mut Rng, var: &str) -> (String, Vec<String>) {
+    let mut params: Vec<String> = Vec::new();
+    let mut conj: Vec<String> = Vec::new();
+    let n = rng.range(2, 4);
+    let key0 = *rng.pick(&["x", "y"]);
+    let c0 = *rng.pick(EQ_CONSTS);
+    for i in 0..n {
+        // mostly the same property again, sometimes another one
+        let key = if rng.chance(3, 4) { key0 } else { *rng.pick(&["x", "y", "name"]) };
+        let c = if rng.chance(1, 3) { c0 } else { *rng.pick(EQ_CONSTS) };
+        let rhs = if rng.chance(1, 4) {
+            let pn = format!("p{}", i);
+            params.push(format!("{}={}", pn, c.1));
+            format!("${}", pn)
+        } else {
+            c.0.to_string()
+        };
+        let lhs = format!("{}.{}", var, key);
+        conj.push(match rng.below(6) {
+            0 => format!("{} = {}", rhs, lhs),
+            1 => format!("{} > 1", lhs),
+            2 => format!("{} IS NOT NULL", lhs),
+            _ => format!("{} = {}", lhs, rhs),
+        });
+    }
+    (conj.join(" AND "), params)
+}
+
 fn where_pred(rng: &mut Rng, var: &str, depth: u32) -> String {
     let p = |_rng: &mut Rng, k: &str| format!("{}.{}", var, k);
     let key = *rng.pick(&["x", "y", "name"]);
@@ -1177,22 +1435,60 @@ fn generate_c19(rng: &mut Rng, n: usize, _tier: &str, out: &mut dyn Write) {
             writeln!(out, "idx P x").unwrap();
             let _ = db.create_index("P", "x");
         }
+        // systematic: pairs of constants for :P(x), equal and different, as two equalities (either
+        // operand order) / one equality plus an inline map / on a relationship end
+        if c % 4 == 0 {
+            let consts = ["1", "2", "true", "'a'"];
+            for a in consts {
+                for b in consts {
+                    let forms: [(String, String); 4] = [
+                        ("MATCH (n:P)".to_string(), format!("n.x = {} AND n.x = {}", a, b)),
+                        ("MATCH (n)".to_string(), format!("{} = n.x AND n.x = {} AND n.name IS NOT NULL", a, b)),
+                        (format!("MATCH (n:P {{x: {}}})", b), format!("n.x = {}", a)),
+                        ("MATCH (n:P)-[:R]->(m)".to_string(), format!("m.x = {} AND n.name IS NOT NULL AND m.x = {}", a, b)),
+                    ];
+                    for (prefix, pred) in forms {
+                        let suffix = if prefix.contains("(m)") { "RETURN n.name AS a, m.name AS b" } else { "RETURN n.name AS name" };
+                        let Some(classes) = classes_of(&db, &prefix, &pred, &[]) else { continue };
+                        let classes = if classes.is_empty() { "-".to_string() } else { classes };
+                        writeln!(out, "w {} ; {} ; {} ; {}", classes, prefix, pred, suffix).unwrap();
+                    }
+                }
+            }
+        }
         let mut made = 0;
         let mut tries = 0;
         while made < per_case && tries < per_case * 10 {
             tries += 1;
-            let (prefix, var, suffix) = match rng.below(6) {
-                0 => ("MATCH (n:P)".to_string(), "n", "RETURN n.name AS name"),
-                1 => ("MATCH (n)".to_string(), "n", "RETURN n.name AS name"),
-                2 => ("MATCH (n:P)-[:R]->(m)".to_string(), "m", "RETURN n.name AS a, m.name AS b"),
+            // inline pattern property maps take part in the planner's pushdown as well
+            let inline = |rng: &mut Rng| -> String {
+                if rng.chance(1, 3) {
+                    let c = *rng.pick(EQ_CONSTS);
+                    format!(" {{{}: {}}}", rng.pick(&["x", "y"]), c.0)
+                } else {
+                    String::new()
+                }
+            };
+            let (prefix, var, suffix) = match rng.below(8) {
+                0 => (format!("MATCH (n:P{})", inline(rng)), "n", "RETURN n.name AS name"),
+                1 => (format!("MATCH (n{})", inline(rng)), "n", "RETURN n.name AS name"),
+                2 => (format!("MATCH (n:P{})-[:R]->(m{})", inline(rng), inline(rng)), "m", "RETURN n.name AS a, m.name AS b"),
                 3 => ("MATCH (n:P) WITH n".to_string(), "n", "RETURN n.name AS name"),
-                4 => ("MATCH (m)<-[:R]-(n)".to_string(), "n", "RETURN n.name AS a, m.name AS b"),
+                4 => (format!("MATCH (m)<-[:R]-(n{})", inline(rng)), "n", "RETURN n.name AS a, m.name AS b"),
+                5 => (format!("MATCH (n:P{})-[r:R]->(m)", inline(rng)), "n", "RETURN n.name AS a, m.name AS b"),
+                6 => ("MATCH (n:P) OPTIONAL MATCH (n)-[:R]->(m) WITH n, m".to_string(), "m", "RETURN n.name AS a, m.name AS b"),
                 _ => ("UNWIND [{x: 1, y: true, name: 'a'}, {x: 'str', name: 'b'}, {y: false}, {x: null}] AS n WITH n".to_string(), "n", "RETURN n.name AS name"),
             };
-            let pred = where_pred(rng, var, 1);
-            let Some(classes) = classes_of(&db, &prefix, &pred) else { continue };
+            let (pred, params) = if rng.chance(2, 5) { eq_conjunction(rng, var) } else { (where_pred(rng, var, 1), vec![]) };
+            let pstr: Vec<&str> = params.iter().map(|x| x.as_str()).collect();
+            let ps = parse_params(&pstr);
+            let Some(classes) = classes_of(&db, &prefix, &pred, &ps) else { continue };
             let classes = if classes.is_empty() { "-".to_string() } else { classes };
-            writeln!(out, "w {} ; {} ; {} ; {}", classes, prefix, pred, suffix).unwrap();
+            if params.is_empty() {
+                writeln!(out, "w {} ; {} ; {} ; {}", classes, prefix, pred, suffix).unwrap();
+            } else {
+                writeln!(out, "w {} ; {} ; {} ; {} ; {}", classes, prefix, pred, suffix, params.join(" ")).unwrap();
+            }
             made += 1;
         }
     }
